@@ -1314,12 +1314,8 @@ impl Runtime for InvocationCtx<'_> {
         Ok(Cid::new_v1(IPLD_RAW, Multihash::wrap(0, b"faketipset").unwrap()))
     }
     fn emit_event(&self, event: &ActorEvent) -> Result<(), ActorError> {
-        if self.read_only() {
-            return Err(ActorError::unchecked(
-                ExitCode::USR_READ_ONLY,
-                "cannot emit events in read-only mode".into(),
-            ));
-        }
+        // As in the repository's reference test_vm (and MockRuntime), the runtime does NOT police events in
+        // read-only mode: an actor that must not log beneath a static call (C18) has to refuse by itself.
         self.events
             .borrow_mut()
             .push(EmittedEvent { emitter: self.msg.to.id().unwrap(), event: event.clone() });
